@@ -158,10 +158,11 @@ From Bio.Proofs Require ImpProofs ImpProofsG.
 (* BED.Write as translated from bed.go — the range check on N, the ladder of `if b.N > k`,
    the three ItemRGB reads, the two loops over the block lists with their computed format —
    hands to a writer that never fails exactly the chunks of the model, and refuses (an
-   error, nothing written) exactly when the model does. *)
+   error, nothing written) exactly when the model does.  Errors are codes in this package's
+   translation: 0 nil, 1 io.EOF, 2 any other error. *)
 Theorem C04_write_is_source : forall b,
   ImpGen.imp_bed_BED_Write (ImpProofsG.bed_of b)
-  = match Bio.Model.Bed.write_calls b with Ok cs => GoSem.Ret (cs, false) | _ => GoSem.Ret ([], true) end.
+  = match Bio.Model.Bed.write_calls b with Ok cs => GoSem.Ret (cs, 0%Z) | _ => GoSem.Ret ([], 2%Z) end.
 Proof. exact ImpProofsG.imp_BED_Write. Qed.
 Print Assumptions C04_write_is_source.
 
@@ -176,15 +177,56 @@ From Bio.Proofs Require ImpProofsH.
 Theorem C04_parse_line_is_source : forall fields,
   ImpGen.imp_bed_parseLine fields
   = match Bio.Model.Bed.parse_line fields with
-    | Ok b => GoSem.Ret (ImpProofsG.bed_of b, false)
-    | _ => GoSem.Ret (ImpProofsH.zero_bed, true)
+    | Ok b => GoSem.Ret (ImpProofsG.bed_of b, 0%Z)
+    | _ => GoSem.Ret (ImpProofsH.zero_bed, 2%Z)
     end.
 Proof. exact ImpProofsH.imp_parseLine. Qed.
 Print Assumptions C04_parse_line_is_source.
 
 Example C04_source_parse_example :
   ImpGen.imp_bed_parseLine [bs "chr1"; bs "5"; bs "9"; bs "n"; bs "3"; bs "+"; bs "5"; bs "9"; bs "1,0x2,0b11"; bs "2"; bs "1,2"; bs "0,3"]
-  = GoSem.Ret (ImpGen.Imp_bed_BED 12 (bs "chr1") 5 9 (bs "n") 3 (bs "+") 5 9 [1; 2; 3]%N 2 [1; 2]%Z [0; 3]%Z, false)
-  /\ ImpGen.imp_bed_parseLine [bs "chr1"; bs "5"; bs "x"] = GoSem.Ret (ImpProofsH.zero_bed, true)
-  /\ ImpGen.imp_bed_parseLine [bs "chr1"; bs "5"] = GoSem.Ret (ImpProofsH.zero_bed, true).
+  = GoSem.Ret (ImpGen.Imp_bed_BED 12 (bs "chr1") 5 9 (bs "n") 3 (bs "+") 5 9 [1; 2; 3]%N 2 [1; 2]%Z [0; 3]%Z, 0%Z)
+  /\ ImpGen.imp_bed_parseLine [bs "chr1"; bs "5"; bs "x"] = GoSem.Ret (ImpProofsH.zero_bed, 2%Z)
+  /\ ImpGen.imp_bed_parseLine [bs "chr1"; bs "5"] = GoSem.Ret (ImpProofsH.zero_bed, 2%Z).
 Proof. vm_compute. repeat split. Qed.
+
+From Bio.Proofs Require ImpProofsJ ImpProofsL.
+
+(* reader.read as translated from bed.go is the loop `for { ... }` over one body
+   (ImpProofsL.imp_bed_read_unfold); on a stream whose next line is complete that body does
+   what the model's do_line says — skips a blank or comment line, stops with an error, or
+   returns the record and the field count now kept in reader.n — and leaves the reader right
+   after the line; on the unterminated last piece it returns the stream's error, io.EOF for a
+   blank or comment piece, and otherwise treats the piece like a line.  (Model/Bed.v builds
+   its iterator dec_lines from do_line with exactly these cases.) *)
+Theorem C04_read_line_is_source : forall n l rest tc, ~ In 10%N l ->
+  ImpProofsL.br_body (ImpProofsL.rdr n, GoSem.Stream (l ++ 10%N :: rest) tc None)
+  = match Bio.Model.Bed.do_line n l with
+    | Bio.Model.Bed.Skip => GoSem.Next (ImpProofsL.rdr n, GoSem.Stream rest tc None)
+    | Bio.Model.Bed.StopErr =>
+        GoSem.Ret (GoSem.Stream rest tc None, ImpProofsL.rdr (ImpProofsL.next_n n (drop_cr l)), (ImpProofsH.zero_bed, 2%Z))
+    | Bio.Model.Bed.Yield b n' => GoSem.Ret (GoSem.Stream rest tc None, ImpProofsL.rdr n', (ImpProofsG.bed_of b, 0%Z))
+    end.
+Proof. exact ImpProofsL.br_body_line. Qed.
+Print Assumptions C04_read_line_is_source.
+
+Theorem C04_read_tail_is_source : forall n tail t, ~ In 10%N tail ->
+  ImpProofsL.br_body (ImpProofsL.rdr n, GoSem.Stream tail (ImpProofsJ.term_code t) None)
+  = match t with
+    | TErr => GoSem.Ret (GoSem.Stream [] 2%Z None, ImpProofsL.rdr n, (ImpProofsH.zero_bed, 2%Z))
+    | TEOF =>
+      match Bio.Model.Bed.do_line n tail with
+      | Bio.Model.Bed.Skip => GoSem.Ret (GoSem.Stream [] 1%Z None, ImpProofsL.rdr n, (ImpProofsH.zero_bed, 1%Z))
+      | Bio.Model.Bed.StopErr =>
+          GoSem.Ret (GoSem.Stream [] 1%Z None, ImpProofsL.rdr (ImpProofsL.next_n n (drop_cr tail)), (ImpProofsH.zero_bed, 2%Z))
+      | Bio.Model.Bed.Yield b n' => GoSem.Ret (GoSem.Stream [] 1%Z None, ImpProofsL.rdr n', (ImpProofsG.bed_of b, 0%Z))
+      end
+    end.
+Proof. exact ImpProofsL.br_body_tail. Qed.
+Print Assumptions C04_read_tail_is_source.
+
+Theorem C04_read_is_the_loop : forall fuel rd r,
+  ImpGen.imp_bed_reader_read fuel rd r
+  = GoSem.after (GoSem.go_while fuel (fun _ => GoSem.Ret true) ImpProofsL.br_body (r, rd)) (fun '(_, _) => GoSem.Panics).
+Proof. exact ImpProofsL.imp_bed_read_unfold. Qed.
+Print Assumptions C04_read_is_the_loop.
